@@ -193,6 +193,10 @@ class Domain:
     """Hook: value returned by an inlined repo call."""
     return ret
 
+  def summary(self, target, args, kwargs, node, st):
+    """Return a V / payload to use instead of inlining `target`."""
+    return None
+
   def iter_elem(self, v, node, st):
     return V(self.top(node))
 
@@ -1583,6 +1587,9 @@ class Engine:
       return V(self.dom.unknown_call(e, st))
     if target.is_abstract:
       return V(self.dom.unknown_call(e, st))
+    summ = self.dom.summary(target, args, kwargs, e, st)
+    if summ is not None:
+      return self._wrap(summ)
     bound = self.bind_args(target, args, kwargs, e, st, func)
     flow = self._run_body(target, bound, st, closure_env)
     # raises propagate to the caller's statement
